@@ -185,7 +185,7 @@ def run_extra(pid, ctx):
     process's stdout and stderr captured."""
     import json, os, hashlib
     import mir_purity
-    res = mir_purity.run("/repo", ctx.scratch)
+    res = mir_purity.run(os.environ.get("VERIF_REPO", "/repo"), ctx.scratch)
     ev = dict(technique="call-graph reachability over the nightly MIR dump of /repo's working tree, z3 fixed-point (Datalog) engine",
               **{k: res.get(k) for k in ("status", "functions", "call_edges", "entries", "sinks", "z3_s", "mir_dump_s", "mir_lines", "chain", "why")})
     out = dict(evidence=ev, evaluations=1, distinct_nontrivial=1 if res.get("status") in ("reachable", "unreachable") else 0,
